@@ -204,16 +204,23 @@ func (x *Exec) sprintf(st *State, args []*Val) (*Term, bool) {
 			for k := 0; k < pad; k++ {
 				lim = Mul(lim, IntLit(10))
 			}
-			if x.sess.CheckWith(Not(And(Ge(v.T, IntLit(0)), Lt(v.T, lim)))) != Unsat {
+			// (a value with more digits is rendered with all its digits)
+			if x.sess.CheckWith(Not(Ge(v.T, IntLit(0)))) != Unsat {
 				return nil, false
 			}
+			padded := StrLit("")
 			for k := pad - 1; k >= 0; k-- {
 				d := IntLit(1)
 				for q := 0; q < k; q++ {
 					d = Mul(d, IntLit(10))
 				}
 				digit := EMod(EDiv(v.T, d), IntLit(10))
-				out = StrConcat(out, strFromCode(Add(IntLit(48), digit)))
+				padded = StrConcat(padded, strFromCode(Add(IntLit(48), digit)))
+			}
+			if x.sess.CheckWith(Not(Lt(v.T, lim))) == Unsat {
+				out = StrConcat(out, padded)
+			} else {
+				out = StrConcat(out, Ite(Lt(v.T, lim), padded, itoaTerm(v.T)))
 			}
 		case 's', 'v':
 			if v.K == kScalar && v.T.sort == SStr {
